@@ -42,6 +42,7 @@ func runC04(c *Ctx) {
 	r.Rule("C04.R3", "every return of AddTrack, RemoveTrack, AddTransceiverFromKind, AddTransceiverFromTrack and CreateDataChannel whose error may be nil has called onNegotiationNeeded (directly or through a helper such as addRTPTransceiver)", 5)
 	r.Rule("C04.R4", "onNegotiationNeeded enqueues negotiationNeededOp iff the operations chain is empty and otherwise arms the deferred flag; operations.start reads the deferred flag only after pop() returned nil (queue drained), clears it before calling back, and calls back iff it was set; the constructor wires the callback and the flag into the queue", 6)
 	r.Rule("C04.R5", "checkNegotiationNeeded: true when there is no current local description; the loop over pc.rtpTransceivers is left early only by `return true`; an iteration goes on to the next transceiver only after its m-section was found in the current local description (step 5.2) and the branch on localDesc.Type (direction vs description, steps 5.3.2/5.3.3) was passed, except through the reviewed skip 'sender's track is nil'", 4)
+	r.Rule("C04.R6", "setSendingTrack (how AddTrack/RemoveTrack on a negotiated transceiver become visible to checkNegotiationNeeded), tabulated over (track nil?, direction): every successful outcome with a track ends in a sending direction, every successful outcome without one in a non-sending direction (W3C addTrack / removeTrack direction table)", 8)
 	r.NotCovered = append(r.NotCovered,
 		"liveness/timing: that the enqueued operation eventually runs and the event fires 'once the connection is stable'",
 		"the value-level comparisons of checkNegotiationNeeded (msid / direction attribute contents); C04.R5 decides only that every transceiver is examined",
@@ -68,6 +69,7 @@ func runC04(c *Ctx) {
 	c04R3(c, onNeg)
 	c04R4(c, op, onNeg, deferredF)
 	c04R5(c) // c04b.go
+	c04R6(c) // c08c.go
 	c13DebugDump(c)
 }
 
